@@ -109,7 +109,11 @@ def main():
     with C.Lock():
         coq_stage(pid, prop, ev, problems, tier)
         okd, dmsg = C.build_driver()
-        if not okd:
+        if not okd and C.driver_valid_for(prop["areas"]) and not any(p["kind"] == "proof" for p in problems):
+            # some OTHER area of the model no longer translates/compiles; this property's own leaves are byte-identical
+            # to the ones the last good driver was extracted from and its own closure has just been re-checked
+            ev["coverage"]["driver"] = "not rebuilt (%s): the previous driver is the model of this property's areas, which are unchanged" % dmsg[:200]
+        elif not okd:
             problems.append({"kind": "tie", "what": "model driver could not be rebuilt (%s); using last good driver" % dmsg[:300]})
             if not os.path.exists(C.DRIVER_BIN):
                 print("ERROR: no model driver available: " + dmsg)
